@@ -1232,7 +1232,7 @@ def build(chk: Check) -> None:
     chk.sub("to_crs_after_many_crs", o_after_many, strategy=s_after_many(), n={"quick": 40, "thorough": 1500}, budget_s={"quick": 40, "thorough": 200}, shrink=False)
     # budgets are per sub-check per shard; their sum bounds the tier's wall time (quick 90 s, thorough 15 min)
     chk.sub("segmented_examples", o_segmented, enum=e_examples, exhaustive_tiers=("quick", "thorough"))
-    chk.sub("segmented", o_segmented, strategy=s_segmented(), n={"quick": 6000, "thorough": 250000}, budget_s={"quick": 26, "thorough": 310})
+    chk.sub("segmented", o_segmented, cov={"quick": 1500, "thorough": 100000}, strategy=s_segmented(), n={"quick": 6000, "thorough": 250000}, budget_s={"quick": 26, "thorough": 310})
     chk.sub("to_crs", o_to_crs, strategy=s_to_crs(), n={"quick": 3000, "thorough": 120000}, budget_s={"quick": 15, "thorough": 150})
     chk.sub("transformer", o_transformer, strategy=s_transformer(), n={"quick": 800, "thorough": 30000}, budget_s={"quick": 6, "thorough": 30})
     chk.sub("round_trip", o_round_trip, strategy=s_to_crs(), n={"quick": 1500, "thorough": 60000}, budget_s={"quick": 10, "thorough": 90})
